@@ -99,11 +99,24 @@ def dominated_by_any(cfg, n, guards):
 
 def control_conditions(node, stop):
     '''[(test expr, branch)] of the if/while statements enclosing `node` up to `stop` (innermost
-    first); branch is True for the body, False for orelse.'''
+    first); branch is True for the body, False for orelse.  A guard clause passed on the way (`if c: ...; return / raise /
+    continue / break` earlier in an enclosing statement list) counts as (c, False): it governs what follows it just as an
+    enclosing `if not c:` would.'''
     out = []
     child = node
     p = getattr(node, '_parent', None)
-    while p is not None and p is not stop:
+    while p is not None:
+        # guard clauses passed on the way: a preceding sibling `if c: ...; <jump>` (no else) governs what follows it
+        for fld in ('body', 'orelse', 'finalbody'):
+            lst = getattr(p, fld, None)
+            if isinstance(lst, list) and any(x is child for x in lst):
+                i = next(k for k, x in enumerate(lst) if x is child)
+                for prev in reversed(lst[:i]):
+                    if isinstance(prev, ast.If) and not prev.orelse and prev.body and \
+                            isinstance(prev.body[-1], (ast.Return, ast.Raise, ast.Continue, ast.Break)):
+                        out.append((prev.test, False, prev))
+        if p is stop:
+            break
         if isinstance(p, (ast.If, ast.While)):
             if any(x is child for x in p.body):
                 out.append((p.test, True, p))
@@ -114,6 +127,57 @@ def control_conditions(node, stop):
                 out.append((p.test, True, p))
             elif p.orelse is child:
                 out.append((p.test, False, p))
+        child = p
+        p = getattr(p, '_parent', None)
+    return out
+
+
+def silent_conditions(node, stop):
+    """control_conditions without the guard clauses that end in `raise`: argument validation that refuses loudly is not a
+    condition under which something is silently skipped"""
+    return [(t, b, p) for t, b, p in control_conditions(node, stop)
+            if not (isinstance(p, ast.If) and not b and not p.orelse and p.body and isinstance(p.body[-1], ast.Raise)
+                    and not any(x is node for x in ast.walk(p)))]
+
+
+def guard_conditions(node, stop):
+    """control_conditions plus the guard clauses passed on the way: a preceding sibling `if c: ...; <jump>` (no else)
+    contributes (c, False).  `not X` tests are reported as (X, flipped branch), so both spellings of a guarded region -
+    nested under `if X:` or following `if not X: continue / return` - give the same list.  Negative comparison operators
+    (is not, !=, not in) are reported as their positive twin with the branch flipped."""
+    _POS = {ast.IsNot: ast.Is, ast.NotEq: ast.Eq, ast.NotIn: ast.In}
+
+    def strip(t, b, p_):
+        while isinstance(t, ast.UnaryOp) and isinstance(t.op, ast.Not):
+            t, b = t.operand, not b
+        if isinstance(t, ast.Compare) and len(t.ops) == 1 and type(t.ops[0]) in _POS:
+            t2 = ast.Compare(left=t.left, ops=[_POS[type(t.ops[0])]()], comparators=t.comparators)
+            t, b = ast.copy_location(t2, t), not b
+        return (t, b, p_)
+    out = []
+    child = node
+    p = getattr(node, '_parent', None)
+    while p is not None:
+        for fld in ('body', 'orelse', 'finalbody'):
+            lst = getattr(p, fld, None)
+            if isinstance(lst, list) and any(x is child for x in lst):
+                i = next(k for k, x in enumerate(lst) if x is child)
+                for prev in reversed(lst[:i]):
+                    if isinstance(prev, ast.If) and not prev.orelse and prev.body and \
+                            isinstance(prev.body[-1], (ast.Return, ast.Raise, ast.Continue, ast.Break)):
+                        out.append(strip(prev.test, False, prev))
+        if p is stop:
+            break
+        if isinstance(p, (ast.If, ast.While)):
+            if any(x is child for x in p.body):
+                out.append(strip(p.test, True, p))
+            elif any(x is child for x in p.orelse):
+                out.append(strip(p.test, False, p))
+        if isinstance(p, ast.IfExp):
+            if p.body is child:
+                out.append(strip(p.test, True, p))
+            elif p.orelse is child:
+                out.append(strip(p.test, False, p))
         child = p
         p = getattr(p, '_parent', None)
     return out
